@@ -383,10 +383,28 @@ func (g *TxGen) mkRegisterEntity() *GenTx {
 	}
 	signer := e.Account
 	intent := "valid"
-	if g.rng.IntN(8) == 0 {
+	switch g.rng.IntN(8) {
+	case 0:
 		signer = g.pickSigner() // tx signed by somebody else than the descriptor
 		if signer != e.Account {
 			intent = "wrong-tx-signer"
+		}
+	case 1:
+		// Forged descriptor: it names entity e, but is signed (and submitted) by another entity's
+		// key. Descriptor signer and transaction signer agree; neither is the entity named inside.
+		// (No further PRNG draw: the attacker is the next entity in the list.)
+		for i, o := range sc.Entities {
+			if o == e {
+				a := sc.Entities[(i+1)%len(sc.Entities)]
+				if a != e {
+					if se, err = entity.SignEntity(a.Signer, registry.RegisterEntitySignatureContext, ed); err != nil {
+						panic(err)
+					}
+					signer = a.Account
+					intent = "wrong-tx-signer" // fails after authentication, like a wrong transaction signer
+				}
+				break
+			}
 		}
 	}
 	tx := registry.NewRegisterEntityTx(g.nonce(signer), g.fee(1000+1000*uint64(len(ed.Nodes))), se)
